@@ -36,7 +36,7 @@ CFG = dict(
          "return ok, return error, SendMsg of a message the codec rejects (quick: words <= 4 with it)} after the open, 3 stream kinds, + unary / "
          "undecodable metadata / bodies for unknown ids / the handler's own deadline; header / trailer metadata in the classes a stricter library refuses (non-ASCII UTF-8, control characters, upper-case / empty / illegal keys, empty "
          "value) in the words and a family of their own; unary calls whose method is still running at its GRPC-Timeout (ends on its context / ignores it) "
-         "with more traffic afterwards; streams to UNREGISTERED methods / unknown services (opener + 0..2 messages + half-close / reset / late body, scripted client and the real client, "
+         "with more traffic afterwards; the cancellation / deadline INSIDE NewStream's opener Write (C07's family: no lone reset on a never-opened id); streams to UNREGISTERED methods / unknown services (opener + 0..2 messages + half-close / reset / late body, scripted client and the real client, "
          "eagerly or after the answer) + probe; the RETURN WINDOW as a schedulable point (a server stats handler "
          "holds the OutTrailer event, a stream interceptor holds after the handler function: handler returned, trailer not yet handed to the writer) x "
          "{body, 2 bodies, half-close, reset, body+reset} of the client arriving there, scripted client and end to end (the real client sends into it); "
